@@ -154,6 +154,9 @@ pub struct Prepared {
     /// indices into doc.bindings of the bindings that became eval functions
     pub dynamic: Vec<usize>,
     pub folded: usize,
+    /// bindings on properties of source objects (binding chains), in dependency order; their
+    /// targets are not free: `settle` recomputes them after every change
+    pub derived: Vec<BindingSite>,
 }
 
 pub enum Prep {
@@ -165,11 +168,58 @@ pub enum Prep {
 /// Generates a document of bindings with an initial state in which every binding is defined,
 /// and translates it.
 pub fn prepare(ch: &mut Chooser, name: &str, nb: usize, opts: &GenOpts) -> Prep {
+    prepare_with(ch, name, nb, opts, 0)
+}
+
+/// Recomputes the derived source properties in dependency order (each reads only objects with
+/// a lower index).
+pub fn settle(derived: &[BindingSite], state: &mut [ObjState]) -> Result<(), Undef> {
+    for d in derived {
+        let (v, _) = eval_binding(d, state)?;
+        state[d.host].props.insert(d.prop, v);
+    }
+    Ok(())
+}
+
+/// small derived bindings `aH.p: f(aL.…)` with L < H, built as programs of the language
+fn gen_derived(ch: &mut Chooser, world: &World, n: usize) -> Vec<BindingSite> {
+    let srcs = world.of_class("VSrc");
+    let mut out: Vec<BindingSite> = vec![];
+    for _ in 0..n {
+        if srcs.len() < 2 {
+            break;
+        }
+        let h = srcs[1 + ch.below(srcs.len() - 1)];
+        let l = srcs[ch.below(srcs.iter().position(|x| *x == h).unwrap())];
+        let rd = |p: &'static str, t: T| E::Prop(Box::new(E::Obj(l)), p, t);
+        let (prop, ty, e): (&'static str, T, E) = match ch.below(6) {
+            0 => ("i0", T::Int, E::Bin(BinOp::Add, Box::new(rd("i0", T::Int)), Box::new(E::Int(1, "1".into())))),
+            1 => ("i1", T::Int, E::Ternary(Box::new(rd("b0", T::Bool)), Box::new(rd("i0", T::Int)), Box::new(rd("i1", T::Int)))),
+            2 => ("s0", T::Str, E::Bin(BinOp::Add, Box::new(rd("s0", T::Str)), Box::new(E::Str("x".into(), "\"x\"".into())))),
+            3 => ("b0", T::Bool, E::Un(UnOp::Not, Box::new(rd("b0", T::Bool)))),
+            4 => ("s1", T::Str, E::Ternary(Box::new(rd("b1", T::Bool)), Box::new(rd("s1", T::Str)), Box::new(rd("s0", T::Str)))),
+            _ => ("d0", T::Double, E::Bin(BinOp::Mul, Box::new(rd("d0", T::Double)), Box::new(E::Float(0.5, "0.5".into())))),
+        };
+        if out.iter().any(|d| d.host == h && d.prop == prop) {
+            continue;
+        }
+        ch.label("binding-chain-through-source-property");
+        out.push(BindingSite { host: h, bind: 0, prop, program: Program { ty, body: Body::Expr(e), locals: vec![], params: 0 } });
+    }
+    out.sort_by_key(|d| d.host);
+    out
+}
+
+pub fn prepare_with(ch: &mut Chooser, name: &str, nb: usize, opts: &GenOpts, n_derived: usize) -> Prep {
     let mut doc = gen_lang_doc(ch, nb, 0, opts);
+    let mut derived = if n_derived > 0 { gen_derived(ch, &doc.world, n_derived) } else { vec![] };
     // initial state: the candidate with the most defined bindings
     let mut best: Option<(usize, Vec<ObjState>)> = None;
     for _ in 0..5 {
-        let st = gen_world_state(ch, &doc.world);
+        let mut st = gen_world_state(ch, &doc.world);
+        if settle(&derived, &mut st).is_err() {
+            continue;
+        }
         let defined = doc.bindings.iter().filter(|b| eval_binding(b, &st).is_ok()).count();
         if best.as_ref().map(|(n, _)| defined > *n).unwrap_or(true) {
             best = Some((defined, st));
@@ -178,7 +228,14 @@ pub fn prepare(ch: &mut Chooser, name: &str, nb: usize, opts: &GenOpts) -> Prep 
             break;
         }
     }
-    let state = best.unwrap().1;
+    let state = match best {
+        Some((_, st)) => st,
+        None => {
+            // no candidate state settles the derived properties: go without them
+            derived.clear();
+            gen_world_state(ch, &doc.world)
+        }
+    };
     // bindings undefined in the initial state are dropped (they cannot be executed at all)
     let keep: Vec<BindingSite> = doc.bindings.iter().filter(|b| eval_binding(b, &state).is_ok()).cloned().collect();
     if keep.is_empty() {
@@ -196,6 +253,12 @@ pub fn prepare(ch: &mut Chooser, name: &str, nb: usize, opts: &GenOpts) -> Prep 
         kept.push(b);
     }
     doc.bindings = kept;
+    for d in derived.iter_mut() {
+        let text = print_program(&d.program, &doc.world.objs, 2);
+        let o = &mut doc.root.children[d.host];
+        o.binds.push(Bind::new(d.prop, text));
+        d.bind = o.binds.len() - 1;
+    }
     let printed = print_doc(DEFAULT_IMPORTS, &doc.root, Style::default());
     let t = translate(&printed.text, name, Mode::Generate);
     if let Some(p) = &t.panic {
@@ -223,7 +286,7 @@ pub fn prepare(ch: &mut Chooser, name: &str, nb: usize, opts: &GenOpts) -> Prep 
             folded += 1;
         }
     }
-    Prep::Ok(Box::new(Prepared { doc, qml: printed.text, header, form, state, dynamic, folded }))
+    Prep::Ok(Box::new(Prepared { doc, qml: printed.text, header, form, state, dynamic, folded, derived }))
 }
 
 pub fn expect_of(p: &Prepared, state: &[ObjState]) -> Result<Vec<(String, String, String)>, Undef> {
